@@ -25,9 +25,11 @@ Oracle (exactly the statement): the sequence of (handler, current index, current
 status is zero iff TLC says "zero"; with `--config` stdout is byte for byte what `__config__` prints, exit 0, no
 handler.  Nothing is demanded of stderr, of the exact non-zero status, or of stdout in ordinary runs.
 
-Excluded from the domain (statement silent): contexts with an unknown type or watchEvent; conversion versions that
-contain "/" (how a group/version is spelled inside a function name is a convention of hook.sh, not of the statement);
-binding names with quotes, newlines or glob characters; handlers that are not shell functions.  For binding names
+Conversion versions: fromVersion / toVersion each plain ("v1beta1") or group-qualified ("stable.example.com/v1beta1"):
+none, only from, only to, both.  ASSUMPTION (spec header): inside the handler name every "/" of a version is written
+".", per version - the framework's own convention and the only way such a handler can be named.
+
+Excluded from the domain (statement silent): contexts with an unknown type or watchEvent; binding names with quotes, newlines or glob characters; handlers that are not shell functions.  For binding names
 with white space (the documentation itself uses "Monitor pods in cache tier", "every minute") no specific handler
 can exist as a bash function, so only __main__ / __on_startup are in the defined-set domain.
 
@@ -190,7 +192,8 @@ def select_cases(ctx, cases):
     if not ctx.quick():
         return cases
     rnd = random.Random(ctx.seed)
-    quota = {(1, "plain", ""): 200, (1, "plain", "--config"): 40, (1, "spaced-name", ""): 40, (1, "spaced-name", "--config"): 5,
+    quota = {(1, "plain", ""): 180, (1, "group-version", ""): 45, (1, "group-version", "--config"): 3,
+             (1, "plain", "--config"): 40, (1, "spaced-name", ""): 40, (1, "spaced-name", "--config"): 5,
              (1, "typed-binding-named-onStartup", ""): 30, (1, "typed-binding-named-onStartup", "--config"): 5,
              (2, "plain", ""): 180, (3, "plain", ""): 60}
     strata = {}
@@ -308,7 +311,7 @@ MANIFEST = {
         note="Trusts TLC, bash 5.2 and jq 1.6 of the sandbox. The repository has no documentation of the handler names; the reference table is "
              "taken from the property statement / DESIGN 5/C19. Bounds: arrays <= 3 contexts, binding names b1 / monitor-pods.v2 plus two documented names "
              "with spaces and the name onStartup on typed contexts; arrays >= 2: <= 2 handlers defined, at most one failing. Not covered: "
-             "group/version conversion names, unknown context types, binding names with quotes or glob characters.",
+             "unknown context types, binding names with quotes or glob characters.",
         technique="TLA+ spec + TLC exhaustive check; TLC-generated cases replayed on the real bash framework (bash + jq)",
         design="5/C19"),
 }
